@@ -20,8 +20,10 @@ GENERATORS = ("dbc", "can_c", "cpp", "nop")
 EXTRA = {
     "two_services": 'version: "3"\nstruct A { x @0: u8, }\nstruct B { y @0: u16, z @1: A, }\nenum E { p = 0, q = 3, }\nstruct C { e @0: E, }\nimpl can for A { id: 1, device: "ecu", }\nservice S1 @0 { method m(A) @0 returns B, method n(B) @1 returns A, }\nservice S2 @1 { method k(C) @0 returns C, }\ndevice ecu { services: [S1, S2], }\n',
     "three_protocols": 'version: "3"\nstruct A { x @0: u8, y @1: i16, }\nstruct B { z @0: f32, }\nimpl can for A { id: 1, device: "d1", }\nimpl uart for A { baud: 9600, }\nimpl spi for B { mode: 3, }\nimpl zigbee for B as Bz { ch: 11, }\nimpl lin for A as Al { nad: 2, }\n',
-    # several sender devices on one bus (node list), and an enum 'Mode' that is 2 bits here ...
-    "nodes_mode2": 'version: "3"\nenum Mode { a = 0, b = 3, }\nstruct P { m @0: Mode, v @1: u8, }\nstruct Q { w @0: u16, }\nstruct R { z @0: i8, }\nimpl can for P { id: 20, device: "inverter", bus: "bus1", }\nimpl can for Q { id: 21, device: "bms", bus: "bus1", }\nimpl can for R { id: 22, device: "dash", bus: "bus1", signal z { endianness: "big", }, }\n',
+    # several sender devices on one bus (node list), fields declared against their ids (also inside an array element), a signal
+    # block that leaves options to their defaults (a generator that writes into the parsed tree shows in the next one),
+    # and an enum 'Mode' that is 2 bits here ...
+    "nodes_mode2": 'version: "3"\nenum Mode { a = 0, b = 3, }\nstruct In { hi @1: u4, lo @0: u4, }\nstruct P { v @1: u8, m @0: Mode, n @2: [In, 2], }\nstruct Q { w @0: u16, }\nstruct R { z @1: i8, k @0: u2, }\nimpl can for P { id: 20, device: "inverter", bus: "bus1", }\nimpl can for Q { id: 21, device: "bms", bus: "bus1", }\nimpl can for R { id: 22, device: "dash", bus: "bus1", signal z { endianness: "big", mux_signal: "k", mux_count: 4, }, }\n',
     # ... and 8 bits here, with the same names: a per-name cache surviving between schemas shows up
     "nodes_mode8": 'version: "3"\nenum Mode { a = 0, b = 200, }\nstruct P { m @0: Mode, v @1: u8, }\nstruct Q { w @0: u16, }\nimpl can for P { id: 20, device: "inverter", bus: "bus1", }\nimpl can for Q { id: 21, device: "zeta", bus: "bus1", }\n',
     "mux_big": 'version: "3"\nenum M { a = 0, b = 1, c = 2, d = 3, }\nstruct A { t @0: u16, s @1: u8, m @2: M, }\nimpl can for A { id: 100, device: "ecu1", bus: "b1", signal t { mux_count: 4, mux_signal: "m", endianess: "big", }, signal s { endianess: "big", }, }\nstruct B { v @0: [u8, 3], w @1: i7, }\nimpl can for B { id: 101, device: "ecu2", bus: "b2", period: 10, }\n',
